@@ -89,7 +89,7 @@ def block_event(n, shifted, radius_q, margin, lazy=False, has_cutoff=False, cuto
         dp = abtem.measurements.DiffractionPatterns(arr, sampling=(samp, samp), fftshift=shifted, metadata=md,
                                                     ensemble_axes_metadata=[OrdinalAxis(values=(0, 1))])
         from .routes import reroute
-        dp = reroute(dp, n + int(shifted) + (0 if radius_q is None else radius_q[0]))[0]          # the patterns arrive through a copy / deepcopy / pickle
+        dp = reroute(dp, (n[0] if isinstance(n, (tuple, list)) else int(n)) + int(shifted) + (0 if radius_q is None else radius_q[0]))[0]          # the patterns arrive through a copy / deepcopy / pickle
         kw = {}
         if radius_q is not None:
             kw["radius"] = radius_q[0] / radius_q[1] * DELTA
